@@ -152,6 +152,19 @@ def listed_ops(nix):
     for kind in ("Tag", "MultiTag"):
         reg(kind, "units", lambda r, e, f: setattr(e, "units", other(r, [None, ["mV"], ["s", "ms"]], list(e.units) or None)))
 
+    def clear_units(r, e, f):
+        if not list(e.units):
+            raise ValueError("not applicable")        # (raised here: nothing to clear)
+        e.units = r.choice([None, [], ()])
+    for kind in ("Tag", "MultiTag"):
+        reg(kind, "units_cleared", clear_units)
+
+    def clear_extent(r, e, f):
+        if not list(e.extent):
+            raise ValueError("not applicable")
+        e.extent = r.choice([None, [], ()])
+    reg("Tag", "extent_cleared", clear_extent)
+
     def numeric_arrays(e):
         b = e._parent
         return [d for d in b.data_arrays if d.dtype.kind in "fiu"]
